@@ -850,7 +850,7 @@ def failure_key(prog, q, obs=None):
 
 # ------------------------------------------------------------------ generic differential run (C12, C25)
 def run_differential(ctx, feats, nprog, check_fn="check_run", imports=IMPORTS, log=True, ok_codes=(0,), soft_codes=None,
-                     est_limits=(120, 2000), make_queries=None, key_fn=None, timeout_ms=1500, nontrivial_fn=None, depth=None):
+                     est_limits=(120, 2000), make_queries=None, key_fn=None, timeout_ms=1500, nontrivial_fn=None, depth=None, corpus=None):
     """Random programs/queries with the given construct families -> implementation (both query paths) -> `check_fn` in Coq.
     ok_codes: result codes that mean agreement; soft_codes: {code: distribution label} counted as evaluated but not as agreement
     of the full observable.  Returns (evaluations, nontrivial set, dist, failures, tie_breaks, samples)."""
@@ -859,6 +859,13 @@ def run_differential(ctx, feats, nprog, check_fn="check_run", imports=IMPORTS, l
     jobs, meta = [], {}
     dist = {"programs": 0, "regenerated_too_big": 0, "dropped_impl": 0, "dropped_model_nofuel": 0, "dropped_model_cyclic_or_unsupported": 0,
             "dropped_model_many_answers": 0, "with_exception": 0, "with_answers": 0, "no_answers": 0, "with_log": 0}
+    # fixed corpus (systematic shapes the random generator reaches too rarely): runs first on every run
+    for prog, queries in (corpus or []):
+        jid = "j%d" % len(jobs)
+        jobs.append({"id": jid, "text": HEADER + (LOG_DEFS if log else "") + program_text(prog), "queries": queries, "log": log})
+        meta[jid] = (prog, queries)
+    dist["corpus_programs"] = len(jobs)
+    nprog += len(jobs)
     while len(jobs) < nprog:
         pfx = "j%d_" % len(jobs)
         g = ProgGen(rng, pfx, feats)
